@@ -108,6 +108,8 @@ type Contract struct {
 	Line     int
 	Bounded  string
 	Lemmas   []string
+	Inlines  []string // callees analysed by body at call sites of this function
+	Variants []string // callee contract variants (F#tag) to use at call sites of this function
 }
 
 type ContractSet struct {
@@ -456,6 +458,20 @@ func (cs *ContractSet) loadFile(pkg, file string) error {
 					cur.Modifies = append(cur.Modifies, m)
 				}
 			}
+		case "variant":
+			if cur == nil {
+				return fail(fmt.Errorf("variant outside contract"))
+			}
+			for _, l := range strings.Split(rest, ",") {
+				cur.Variants = append(cur.Variants, strings.TrimSpace(l))
+			}
+		case "inlines":
+			if cur == nil {
+				return fail(fmt.Errorf("inlines outside contract"))
+			}
+			for _, l := range strings.Split(rest, ",") {
+				cur.Inlines = append(cur.Inlines, strings.TrimSpace(l))
+			}
 		case "lemma!", "uses":
 			if cur == nil {
 				return fail(fmt.Errorf("uses outside contract"))
@@ -525,4 +541,25 @@ func splitTopLevel(t string) []string {
 		}
 	}
 	return append(out, t[start:])
+}
+
+// inlinesCallee reports whether the contract asks for callee key (full function key) to
+// be inlined; entries are written like contract names, e.g. (*op).apply.
+func (c *Contract) inlinesCallee(key string) bool {
+	for _, n := range c.Inlines {
+		if n != "" && strings.HasSuffix(key, "."+n) {
+			return true
+		}
+	}
+	return false
+}
+
+// variantOf returns the key of the contract variant this contract wants for callee key.
+func (c *Contract) variantOf(key string) string {
+	for _, v := range c.Variants {
+		if i := strings.Index(v, "#"); i > 0 && strings.HasSuffix(key, "."+v[:i]) {
+			return key + v[i:]
+		}
+	}
+	return ""
 }
